@@ -29,6 +29,8 @@ Next == /\ phase[1] = "b"
                     /\ phase' = <<"c", tr, m, cap, af, "w", Request(tr, TRUE, m = 1, Sq, Ad, words, [k \in 1..words * ws |-> (k * 37) % 251])>>
               \/ \E words \in 0..((cap + 6) \div ws), af \in {0, 1} :                       \* reads around the limit
                     phase' = <<"c", tr, m, cap, af, "r", Request(tr, FALSE, m = 1, Sq, Ad, words, <<>>)>>
+              \/ \E words \in 0..((cap + 6) \div ws) :                                       \* reads that carry the (empty) payload checksum word: a longer header, less room
+                    phase' = <<"c", tr, m, cap, 0, "r", FrameOctets(T_RREQ, Opts(tr, m = 1, FALSE) + O_PLCRC, 0, Sq, Ad, <<0, words>>, <<>>)>>
               \/ \E hi \in {1, 32767, 32768, 65535}, lo \in {0, 1, 5, 65535}, ws16 \in {0, 1} :        \* reads of 2^16 .. 2^32 - 1 words
                     phase' = <<"c", tr, m, cap, 0, "r", FrameOctets(T_RREQ, Opts(tr, ws16 = 1, FALSE), 0, Sq, Ad, <<hi, lo>>, <<>>)>>
               \/ \E k \in 0..Hdr(tr) - 1 :                                                  \* cut below a header
